@@ -64,6 +64,8 @@ def rule_text(rules, depth=0):
             params.append("%rewrite")
         elif r.get("logic") in LOGIC_PARAM:
             params.append("%logic=" + LOGIC_PARAM[r["logic"]])
+        if r.get("icase"):
+            params.append("%ignore_case")
         out.append("    " * depth + line + ("  " + " ".join(params) if params else ""))
         if r.get("kids"):
             out += rule_text(r["kids"], depth + 1)
